@@ -82,7 +82,9 @@ func (s *scLife) Configure(w *World) {
 			}
 		}
 		c.W.Commit = 3
-		c.W.Close = 1
+		if t.Draw(3, nil) == 0 {
+			c.W.Close = 1 // the save performed during Close
+		}
 		if !strings.HasPrefix(c.ConsumerMode, "deferred") && t.Draw(2, nil) == 0 {
 			c.YieldSites = map[string]bool{"consumer.trackoffset": true}
 		}
